@@ -102,7 +102,7 @@ def classify_std(m):
 
 
 ALL_INVS = ["Agree", "PrepareFailurePropagates", "NoDrift", "OutputClean", "FixedPoint", "OnlySpacesChange",
-            "MappingsAgree", "MappingsIdempotent", "AllowsAgree", "PowerLawHolds", "PadLawHolds"]
+            "MappingsAgree", "MappingsIdempotent", "AllowsAgree", "PowerLawHolds", "PadLawHolds", "CompFormPadLaw"]
 
 
 def profiles_mc(chk, name, roles, maxlen, profs, ops, instances=(0,), invariants=ALL_INVS, forms=True, workers=6, timeout=2400, frame=None):
@@ -370,6 +370,7 @@ def C07(chk):
                    harness_args=["--forms"], timeout=3000)
         generic_mc(chk, "MC_Compare", "normalization3", ["e", "acute", "Eac", "angst", "rom4", "dotI"], {"MaxLen": 3, "Profs": profs}, invs, (0, 1),
                    harness_args=["--forms"], timeout=3000)
+    long_run(chk, ops=["compare"], max_bytes=5000 if q else 70000, name="long-compare")
     l3_run(chk, "families", driver="families", strings=60 if q else 700, profiles=["UCM", "UCP", "OPQ", "NICK"])
     chk.cov["exhaustive"] = True
     chk.cov["rule"] = ("every ordered pair of strings of length <= 2 (thorough: <= 3) over alphabets mixing case/width/spacing variants, "
